@@ -65,6 +65,51 @@ def fileOf (t : Test) (w : String) : String :=
 
 def siteLoc (p : Prog) (i : Nat) : Loc := ⟨p.siteFile, p.siteLines.getD i 0⟩
 
+def diffText (expected actual : String) (pos : Nat) (window : String) : String :=
+  "expected <" ++ expected ++ ">\n\tbut was  <" ++ actual ++ ">\n\tdifference starts at position " ++ toString pos ++
+    " at: <" ++ window ++ ">\n\t                                               ^"
+
+def longsText : String := "expected <1 (0x1)>\n\tbut was  <2 (0x2)>"
+def bitsText : String := "expected <xxxxxxxx xxxxxxxx xxxxxxxx xxxx0101>\n\tbut was  <xxxxxxxx xxxxxxxx xxxxxxxx xxxx0100>"
+def memText : String := diffText "01 02 03" "01 09 03" 1 "      01 09 03      "
+def strText : String := diffText "abc" "abd" 2 "        abd         "
+
+/-- kind of a `checkKind` statement, the text of its failure, and the plain-macro site it sits at
+    (macros without a _LOCATION form) -/
+def checkKindOf : String → Option (CheckKind × String × Option Nat)
+  | "check" => some (.check, "CHECK(cond) failed", none)
+  | "checkText" => some (.checkText, "Message: txt\n\tCHECK(cond) failed", none)
+  | "checkEqual" => some (.checkEqual, diffText "1" "2" 0 "          2         ", none)
+  | "longs" => some (.longs, longsText, none)
+  | "ulongs" => some (.ulongs, longsText, none)
+  | "longlongs" => some (.longlongs, longsText, none)
+  | "ulonglongs" => some (.ulonglongs, longsText, none)
+  | "bytes" => some (.bytes, "LONGS_EQUAL((0x101) & 0xff, (a) & 0xff) failed\n\t" ++ longsText, some 5)
+  | "sbytes" => some (.sbytes, "expected <-1 (0xff)>\n\tbut was  < 2 (0x2)>", none)
+  | "pointers" => some (.pointers, "expected <0x1000>\n\tbut was  <0x2000>", none)
+  | "fpointers" => some (.fpointers, "expected <0x1000>\n\tbut was  <0x2000>", none)
+  | "doubles" => some (.doubles, "expected <10>\n\tbut was  <20> threshold used was <5>", none)
+  | "strcmp" => some (.strcmp, strText, none)
+  | "strncmp" => some (.strncmp, diffText "abc" "axd" 1 "         axd        ", none)
+  | "strcmpNocase" => some (.strcmpNocase, diffText "abc" "ABD" 2 "        ABD         ", none)
+  | "strcmpContains" => some (.strcmpContains, "actual <abd>\n\tdid not contain  <bc>", none)
+  | "strcmpNocaseContains" => some (.strcmpNocaseContains, "actual <abd>\n\tdid not contain  <bc>", none)
+  | "memcmp0" => some (.memcmp0, memText, none)
+  | "memcmp" => some (.memcmp, memText, none)
+  | "bits" => some (.bits, bitsText, none)
+  | "compare" => some (.compare, "CHECK_COMPARE(1 < 0) failed", some 6)
+  | "enumsInt" => some (.enumsInt, diffText "1" "2" 0 "          2         ", none)
+  | "throws" => some (.throws, "expected to throw std::runtime_error\nbut threw nothing", some 7)
+  | "cInt" => some (.cInt, longsText, none)
+  | "cReal" => some (.cReal, "expected <10>\n\tbut was  <20> threshold used was <5>", none)
+  | "cString" => some (.cString, strText, none)
+  | "cPointer" => some (.cPointer, "expected <0x1000>\n\tbut was  <0x2000>", none)
+  | "cMemcmp0" => some (.cMemcmp0, memText, none)
+  | "cMemcmp" => some (.cMemcmp, memText, none)
+  | "cBits" => some (.cBits, bitsText, none)
+  | "checkC" => some (.checkC, "CHECK_C(cond) failed", none)
+  | _ => none
+
 /-- the statement an `s` line adds (the harness printed the line, so it is well formed) -/
 def stmtOf (p : Prog) (t : Test) : List String → Option Stmt
   | ["mark", n] => n.toNat?.map Stmt.mark
@@ -83,6 +128,12 @@ def stmtOf (p : Prog) (t : Test) : List String → Option Stmt
   | ["shellfail", f, l] => some (.failCpp ⟨fileOf t f, l.toNat?.getD 0⟩ "shellfail")
   | ["shellfailc", f, l] => some (.failC ⟨fileOf t f, l.toNat?.getD 0⟩ "shellfailc")
   | ["exitc"] => some .exitTestC
+  | ["checkKind", k, pf, f, l] =>
+    (checkKindOf k).map fun (ck, msg, site) =>
+      .check ck (pf == "pass")
+        (match site with
+         | some i => siteLoc p i
+         | none => ⟨fileOf t f, l.toNat?.getD 0⟩) msg
   | ["throwstd"] => some .throwStd
   | ["throwother"] => some .throwOther
   | ["exit"] => some .exitTest
@@ -112,7 +163,7 @@ def applyOp (p : Prog) (op : List String) (obs : List (List String)) : Prog :=
   | ["cfg", rep, v, ri, col, rt] =>
     let exc := !(obs.any (· == ["variant", "noexc"]))
     let sites := obs.filterMap fun l => match l with
-      | ["sites", f, a, b, c, d, e] => some (strOfHex f, [a, b, c, d, e].map (·.toNat?.getD 0))
+      | "sites" :: f :: rest => some (strOfHex f, rest.map (·.toNat?.getD 0))
       | _ => none
     { p with haveCfg := true, exc := exc, rep := repOf rep, verbosity := v.toNat?.getD 0, runIgnored := ri == "1",
              color := col == "1", rethrow := rt == "1",
